@@ -3,7 +3,7 @@ use crate::{
     error::{WriterError, WriterResult},
     model::{
         TryFromNode,
-        field::{as_field_name, as_identifier, as_type_name, resolve_type},
+        field::{as_field_name, as_type_name, resolve_type},
     },
     reader::WriteXml,
 };
@@ -64,7 +64,7 @@ where
 {
     fn write_xml(&self, writer: &mut W) -> WriterResult<()> {
         // create a wrapping Rust struct for the service
-        let service_name = as_identifier(&self.name);
+        let service_name = as_type_name(&self.name);
         writeln!(writer, "pub struct {service_name} {{")?;
         writeln!(writer, "    pub client: reqwest::Client,")?;
         writeln!(writer, "    pub location: String,")?;
